@@ -367,8 +367,10 @@ class PageRenderer:
                             )
                             elements.extend(spanning)
 
-                    # Update state
-                    last_values.update(new_values)
+                    # Update state. Levels whose value is a divider ("-----") are absent
+                    # from new_values; forget their previous value so that the same value
+                    # recurring after the divider group gets its heading again.
+                    last_values = dict(new_values)
 
                 prev_row = page_rel_row
 
